@@ -191,7 +191,7 @@ CHECKS = [
         "fold",
         cases,
         execute,
-        n={"quick": 16000, "thorough": 800000},
+        n={"quick": 12000, "thorough": 200000},
         shards={"quick": 16, "thorough": 16},
         doc="exact-rational reference for apply_boundary_conditions / check_bounds",
     )
